@@ -1,4 +1,5 @@
 """C11 / C15: proving-system file framing."""
+import os
 from . import common
 from .common import Violation
 
@@ -41,8 +42,54 @@ def run(ctx, which):
                                                   'only': sorted(only), 'index': i, 'case': line, 'code_says': code, 'spec_says': model})
         what = 'truncated file' if line.startswith('cut') else 'file round trip'
         raise Violation(f'{what}: real code gives "{code[:200]}", model/specification says "{model[:200]}" for {line[:200]}', replay)
+    if which == 'c11':
+        convert_cli(ctx)
     if ctx.thorough:
         common.leanchecker(ctx, [f'Smtb.Properties.{prop}'])
+
+
+def convert_cli(ctx):
+    """`gnark-mbu convert-to-raw` on the compressed and the raw file of a real system: into a new file,
+    onto itself, and through a symlink to the input.  The result must be the raw file, byte for byte."""
+    import hashlib, shutil
+    d = ctx.scratchdir()
+    comp, raw = os.path.join(d, 'real.compressed.keys'), os.path.join(d, 'real.raw.keys')
+    if not (os.path.exists(comp) and os.path.exists(raw)):
+        raise common.TieBroken('T-corr convert', 'corrfile did not leave the real system files')
+    want = hashlib.sha256(open(raw, 'rb').read()).hexdigest()
+    cli = common.build_cli(ctx)
+    scenarios = []
+    for src, label in ((comp, 'compressed'), (raw, 'raw')):
+        out = os.path.join(d, f'conv-{label}.keys')
+        scenarios.append((f'{label} -> new file', src, out, out))
+        inplace = os.path.join(d, f'inplace-{label}.keys')
+        shutil.copyfile(src, inplace)
+        scenarios.append((f'{label} in place', inplace, inplace, inplace))
+        target = os.path.join(d, f'linked-{label}.keys')
+        shutil.copyfile(src, target)
+        link = os.path.join(d, f'link-{label}.keys')
+        if os.path.lexists(link):
+            os.remove(link)
+        os.symlink(target, link)
+        scenarios.append((f'{label} via symlink to the input', target, link, target))
+    bad = None
+    for name, inp, outp, result in scenarios:
+        p = common.run([cli, 'convert-to-raw', '--input', inp, '--output', outp], timeout=1800)
+        got = hashlib.sha256(open(result, 'rb').read()).hexdigest() if os.path.exists(result) else 'missing'
+        ok = p.returncode == 0 and got == want
+        ctx.oblige(f'CLI convert-to-raw, {name}: exit 0 and the result is the raw encoding of the same system', ok,
+                   '' if ok else f'exit {p.returncode}, result sha256 {got[:16]} (want {want[:16]}), size {os.path.getsize(result) if os.path.exists(result) else 0}: {(p.stderr or "")[-200:]}')
+        ctx.extra['extra_evaluations'] = ctx.extra.get('extra_evaluations', 0) + 1
+        ctx.extra['extra_distinct'] = ctx.extra.get('extra_distinct', 0) + 1
+        if not ok and not bad:
+            bad = (name, p.returncode, got, os.path.getsize(result) if os.path.exists(result) else 0, (p.stderr or '')[-300:])
+    for f in os.listdir(d):
+        if f.endswith('.keys'):
+            os.remove(os.path.join(d, f))
+    if bad:
+        replay = common.write_replay(ctx, 'convert', {'kind': 'convert', 'scenario': bad[0], 'exit': bad[1], 'result_sha256': bad[2], 'result_size': bad[3],
+                                                     'stderr': bad[4], 'recipe': 'write a real proving system (compressed and raw); gnark-mbu convert-to-raw --input X --output Y with Y new / Y = X / Y a symlink to X'})
+        raise Violation(f'convert-to-raw ({bad[0]}): exit {bad[1]}, file afterwards {bad[3]} bytes: {bad[4][-150:]}', replay)
 
 
 def replay(ctx, data):
